@@ -394,6 +394,27 @@ def _run_history(out, rng, mt0, rows0, ops, arr, check_methods=True):
 # --------------------------------------------------------------------------
 # spec-level differential (also the failing-input search)
 # --------------------------------------------------------------------------
+def _regression_corpus(out, rng):
+    """witnesses of repaired defects (status "fixed" in known_findings.d/C03.json) are replayed first on every run;
+    a failure is an ordinary spec failure (fixed entries are never matched as known)"""
+    import json
+    from .common import VERIF
+
+    fp = VERIF / "known_findings.d" / "C03.json"
+    if not fp.exists():
+        return
+    for k in json.loads(fp.read_text()).get("findings", []):
+        w = k.get("witness")
+        if k.get("status") != "fixed" or not w:
+            continue
+        bump(out, "regression_corpus", k["id"])
+        tmp = new_outcome()
+        _run_history(tmp, rng, w["moltype"], w["rows"], w["ops"], w.get("cls") == "ArrayAlignment", check_methods=False)
+        out["evaluations"] += tmp["evaluations"]
+        for f in tmp["failures"]:
+            add_failure(out, "spec", f"REGRESSION of {k['id']} ({k.get('commit')}): " + f["what"], f["input"], f["expected"], f["got"], sig="regression:" + f["sig"])
+
+
 def spec_check(ctx, budget):
     out = new_outcome(
         "random dna/rna/protein alignments (1-5 rows, length 0-24, leading/trailing/all-gap rows, degenerates) x random "
@@ -403,6 +424,7 @@ def spec_check(ctx, budget):
         "non-trivial = distinct (class, alignment, history) that ran >= 1 op to a non-empty result"
     )
     rng = ctx.subrng(f"spec{budget}")
+    _regression_corpus(out, rng)
     # exhaustive: every [a:b] (None/negative/out-of-range) then rc, on a few fixed layouts
     fixed = [
         ("dna", {"s0": "G--", "s1": "A-C", "s2": "YYG"}),
@@ -499,13 +521,9 @@ def correspondence(ctx):
                 op = ["keep", locs]
             else:
                 op = _rand_op(rng, cur_mt, cur, wild=rng.random() < 0.5)
-                if op[0] not in MODEL_OPS or (op[0] == "take_positions" and op[2]):
+                if op[0] not in MODEL_OPS:
                     continue
             ops.append(op)
-            if op[0] == "add" and op[1] == "self":
-                # `aln + aln` leaves rows whose maps no longer fit their data (known defect); numpy's
-                # searchsorted on the resulting unsorted arrays is outside the model, so the history ends here
-                break
             try:
                 if op[0] == "keep":
                     cur = {nm: "".join(s[a:b] for a, b in op[1]) for nm, s in cur.items()}
